@@ -23,7 +23,15 @@ class CommandOption(AbstractOption):
         self._short_aliases = []
 
         for alias in aliases:
-            alias = self._remove_dash_prefix(alias)
+            if alias.startswith("--"):
+                alias = self._remove_double_dash_prefix(alias)
+
+                if len(alias) < 2:
+                    raise ValueError(
+                        "A long option alias must contain more than one character."
+                    )
+            else:
+                alias = self._remove_dash_prefix(alias)
 
             if len(alias) == 1:
                 self._validate_short_alias(alias)
